@@ -292,7 +292,18 @@ def apply(ctx, w, ev, hist, check):
         nlog = len(log)
         hcalls = sum(len(f.log) for f in w.handlers.values())
         v = getattr(a, n)
-        if check and first:
+        if check and n in w.first_default:
+            # (by the model's own book-keeping, not by what the object
+            #  happens to have stored)
+            f0 = w.first_default[n]
+            same = (v is f0) or (n == "rng" and v == f0)
+            if not same:
+                bad("default-recomputed", "%s was never assigned since its "
+                    "default was first read as %r; it now reads %r"
+                    % (n, f0, v))
+        if first:
+            w.first_default.setdefault(n, v)
+        if check and first and good:
             ctx.outcome("default-read")
             if len(log) != nlog or \
                     sum(len(f.log) for f in w.handlers.values()) != hcalls:
@@ -315,19 +326,11 @@ def apply(ctx, w, ev, hist, check):
                 if plain(v) != want:
                     bad("wrong-default", "first read of %s gives %r, "
                         "declared default %r" % (n, plain(v), want))
-            w.first_default[n] = v
             if n in w.reported:
                 if w.reported[n] != id(v):
                     bad("reported-default-not-read", "the default object "
                         "reported to handlers when %s was deleted is not "
                         "the object read afterwards" % n)
-        if check and not first and n in w.first_default:
-            f0 = w.first_default[n]
-            same = (v is f0) or (n == "rng" and v == f0)
-            if not same:
-                bad("default-recomputed", "%s was never assigned since its "
-                    "default was first read as %r; it now reads %r"
-                    % (n, f0, v))
         if k == "mutate":
             c = v
             if n in ("tl", "tls"):
@@ -563,7 +566,10 @@ def canon(w):
     return (w.cls.__name__, st, sorted(a._instance_traits()),
             sorted(k for k, f in w.handlers.items()
                    if getattr(f, "on", False)),
-            sorted(w.reported))
+            sorted(w.reported),
+            # the model's own book-keeping is state as well: which defaults
+            # have been read (on correct code the stored value says so too)
+            sorted((n, repr(plain(v))) for n, v in w.first_default.items()))
 
 
 def run_history(ctx, actor, hist):
@@ -631,7 +637,14 @@ def shards(tier):
     evs = events()
     return [{"actor": "cells", "first": -1}] + \
         [{"actor": actor, "first": i}
-         for actor in ("K", "KS") for i in range(len(evs))]
+         for actor in ("K", "KS") for i in range(len(evs))] + \
+        [{"actor": actor, "first": -2, "focus": list(f)}
+         for actor in ("K", "KS") for f in FOCUS]
+
+
+#: small groups of traits that depend on each other, explored on their own
+#: one level deeper than the full menu (every history over the group's events)
+FOCUS = [("rng", "dv", "lo"), ("pick", "mp", "bag")]
 
 
 def run_shard(ctx, shard, tier):
@@ -643,11 +656,18 @@ def run_shard(ctx, shard, tier):
     evs = events()
     sub = submenu() if tier == "quick" else evs
     depth = 3
+    focus = shard.get("focus")
+    if focus:
+        fm = [e for e in evs if len(e) > 1 and e[1] in focus] + \
+            [("reset_traits",), ("clone",)]
+        depth = 4 if tier == "quick" else 5
     frontier = [[]]
     n_exec = 0
     for d in range(1, depth + 1):
         nxt = []
         menu = [evs[shard["first"]]] if d == 1 else (evs if d == 2 else sub)
+        if focus:
+            menu = fm
         for hist in frontier:
             for ev in menu:
                 h2 = hist + [ev]
@@ -656,7 +676,8 @@ def run_shard(ctx, shard, tier):
                 if ok is None:
                     continue
                 ctx.ev()
-                ctx.nontriv((actor, key[1], ev))
+                if key is not None:
+                    ctx.nontriv((actor, key[1], ev))
                 n_exec += 1
                 if n_exec % 200 == 0:
                     gc.collect()
@@ -665,7 +686,7 @@ def run_shard(ctx, shard, tier):
         frontier = nxt
     ctx.depth_completed = depth
     ctx.sample({"actor": actor, "history": frontier[0] if frontier
-                else [evs[shard["first"]]]})
+                else [evs[max(shard["first"], 0)]]})
 
 
 def replay(rec):
